@@ -115,6 +115,9 @@ pub fn generated_seeds(thorough: bool) -> Vec<Seed> {
     for (attr, item) in [("Clone, Deref", "struct X(u8, u8);"), ("Default, Clone", "enum X { A, B }"), ("Clone, Debug", "struct X(#[debug(transparent)] u8, #[debug(transparent)] u8);"), ("Ord, PartialOrd, Eq, PartialEq", "struct X(#[partial_ord(reverse)] u8);"), ("Clone, Add", "enum X { A(u8), B }"), ("Debug, Deref, Clone", "enum X { A(u8) }"), ("Neg, PartialEq", "enum X { A, B }")] {
         v.push(seed("gen:failing-sibling", attr, item));
     }
+    // macro_rules! fragments inside field types (`__FRAG(..)` = the tokens inside an invisible group)
+    v.push(seed("gen:fragment-in-field-type", "Clone, Debug, PartialEq", "struct X<T>([T; __FRAG(1 + 2) * 2], &'static __FRAG(dyn ::core::fmt::Debug + Send));"));
+    v.push(seed("gen:fragment-in-field-type", "Clone, Hash", "enum X<T> { A, B { q0: [T; __FRAG(1 + 2) as usize], _q0: *const __FRAG(dyn ::core::fmt::Debug + 'static) } }"));
     // generic comparison with bounds
     v.push(seed("gen:cmp-bound", "PartialEq, PartialOrd, bound(T: Copy, ..)", "#[partial_ord(bound(T: PartialOrd))] struct X<T>(#[partial_eq(bound(..))] T, Option<T>);"));
     v.push(seed("gen:cmp-bound-enum", "Eq, PartialEq, Hash", "#[eq(bound(T: Eq))] enum X<T> { #[derive_ex(Hash(bound(T: ::core::hash::Hash)))] A(T), #[hash(bound(..))] B { #[eq(key = $.len())] x: Vec<T> } }"));
